@@ -1,6 +1,7 @@
 import CookModel.Basic.Proto
 import CookModel.Num.Convert
 import CookModel.Gen.UnitsAlt
+import CookModel.Gen.UnitsLay
 /-
   Line protocol of the conversion model (Float instance).
 
@@ -10,6 +11,7 @@ import CookModel.Gen.UnitsAlt
                  unit = `none` | `u<text>`;  an absent quantity is `none`
   target spec  : `u<text>` | `smetric` | `simperial` | `same`
   converter    : `b` (bundled, generated from units.toml) | `a` (the alternative test file)
+                 | `l` (units.toml + the stacked fraction-settings layer corpus/C12/frac_layer.toml)
 -/
 namespace Cook.Driver
 open Cook Proto
@@ -19,6 +21,12 @@ def bundledF : Converter Float := Converter.bundled Float
 /-- the converter of corpus/C09/alt_units.toml (built by the harness with `ConverterBuilder`) -/
 def altF : Converter Float :=
   match Converter.ofDesc GenAlt.bundledDesc (mkTable Float Gen.DENOMS) with
+  | some c => c
+  | none => Converter.empty (mkTable Float Gen.DENOMS)
+
+/-- the bundled units with corpus/C12/frac_layer.toml stacked on top (built by the harness with two `with_units_file` calls) -/
+def layF : Converter Float :=
+  match Converter.ofDesc GenLay.bundledDesc (mkTable Float Gen.DENOMS) with
   | some c => c
   | none => Converter.empty (mkTable Float Gen.DENOMS)
 
@@ -184,6 +192,7 @@ def handleConvertWith (c : Converter Float) : List String → Option String
 def handleConvert : List String → Option String
   | "cv" :: "b" :: rest => if bundledF.wf then handleConvertWith bundledF rest else some "pre-violated"
   | "cv" :: "a" :: rest => if altF.wf then handleConvertWith altF rest else some "pre-violated"
+  | "cv" :: "l" :: rest => if layF.wf then handleConvertWith layF rest else some "pre-violated"
   | _ => none
 
 end Cook.Driver
